@@ -74,7 +74,12 @@ ResDef == [t |-> "res", s |-> 0, v |-> 0, k |-> "func"]          \* the address 
 (*   f = function, d = data item, i = import, e = export, w = forward,                   *)
 (*   s = data section: a named data item followed by anonymous data items (an array or   *)
 (*       struct); the name denotes the first item, i.e. the start of the whole block.    *)
-D(k, n) == [k |-> k, n |-> n]
+(*   g / G = function that CALLS the import c and adds its own constant to the result    *)
+(*       (g: a few insns, inlined into its callers at their link step; G: too big for    *)
+(*       the inlining of a plain call).  The value a call of it yields is defined         *)
+(*       through the binding its OWN module got for c at its own link step (Val below).   *)
+D(k, n) == [k |-> k, n |-> n, c |-> ""]
+DC(k, n, c) == [k |-> k, n |-> n, c |-> c]
 AllShapes == <<
   (* 1 P *) <<D("w", "a"), D("e", "a"), D("f", "a"), D("i", "b")>>,                       \* forward, export, definition
   (* 2 Q *) <<D("i", "a"), D("e", "b"), D("f", "b"), D("s", "c"), D("e", "c")>>,          \* export, definition; definition, export
@@ -86,11 +91,14 @@ AllShapes == <<
   (* 8   *) <<D("e", "c"), D("i", "c")>>,                    \* import of an exported name: import_export
   (* 9   *) <<D("f", "a"), D("d", "a")>>,                    \* two definitions: repeated_decl
   (* 10  *) <<D("e", "b"), D("i", "a")>>,                    \* export without definition (DevDanglingAccepted)
-  (* 11  *) <<D("i", "c"), D("w", "b")>>                     \* forward without definition (DevDanglingAccepted)
+  (* 11  *) <<D("i", "c"), D("w", "b")>>,                    \* forward without definition (DevDanglingAccepted)
+  (* 12  *) <<D("i", "a"), D("e", "b"), DC("g", "b", "a")>>, \* b calls the import a (small)
+  (* 13  *) <<D("i", "a"), DC("G", "b", "a"), D("e", "b")>>, \* b calls the import a (big)
+  (* 14  *) <<D("e", "a"), D("F", "a")>>                     \* a big plain function a (a plain call of it is not inlined)
 >>
 
 NoEntry == [def |-> "", imp |-> FALSE, exp |-> FALSE, fwd |-> FALSE]
-Kind(k) == IF k = "f" THEN "func" ELSE "data"
+Kind(k) == IF k \in {"f", "F", "g", "G"} THEN "func" ELSE "data"
 
 (* Construction of a module through MIR_new_import/export/forward/func/data.             *)
 (* Rules: a name is either imported or declared locally, never both (import_export);     *)
@@ -141,7 +149,24 @@ Init ==
   /\ ev = [a |-> "init", s |-> 0, len |-> 0, permit |-> FALSE, useRes |-> FALSE, R |-> {}, batch |-> <<>>]
   /\ h = <<>>
 
-ShapeStr(s) == [i \in 1..Len(AllShapes[s]) |-> AllShapes[s][i].k \o AllShapes[s][i].n]
+ShapeStr(s) == [i \in 1..Len(AllShapes[s]) |-> AllShapes[s][i].k \o AllShapes[s][i].n \o AllShapes[s][i].c]
+
+(* ---- the value a call yields (the observable the harness compares) ---- *)
+NameIdx(n) == IF n = "a" THEN 0 ELSE IF n = "b" THEN 1 ELSE 2
+BaseK(n, s, v) == 10000 * (NameIdx(n) + 1) + 100 * s + v        \* the constant of definition n of instance <<s, v>>
+CalleeOf(s, n) == LET I == {i \in 1..Len(AllShapes[s]) : AllShapes[s][i].n = n /\ AllShapes[s][i].c # ""}
+                  IN IF I = {} THEN "" ELSE AllShapes[s][CHOOSE i \in I : TRUE].c
+(* Val(b, d, n): result of calling definition d of name n, given the bindings b of the linked modules; -1: not a     *)
+(* function all the way down (nothing is called then).  A calling function goes through the binding of ITS module.   *)
+RECURSIVE Val(_, _, _)
+Val(b, d, n) ==
+  IF d.t = "ext" THEN 500000 + d.s
+  ELSE IF d.t = "res" THEN 700000 + NameIdx(n)
+  ELSE IF d.t # "mir" \/ d.k # "func" THEN -1
+  ELSE LET c == CalleeOf(d.s, n) IN
+       IF c = "" THEN BaseK(n, d.s, d.v)
+       ELSE IF <<d.s, d.v, c>> \notin DOMAIN b THEN -1
+       ELSE LET cv == Val(b, b[<<d.s, d.v, c>>], c) IN IF cv < 0 THEN -1 ELSE BaseK(n, d.s, d.v) + cv
 DefT(d) == <<d.t, d.s, d.v, d.k>>
 
 (* MIR_load_module: the exported definitions become visible in declaration order.        *)
@@ -149,8 +174,8 @@ RECURSIVE LoadDecls(_, _, _, _, _, _)
 LoadDecls(decls, i, s, v, e, hist) ==
   IF i > Len(decls) THEN [err |-> "", env |-> e, hist |-> hist]
   ELSE LET k == decls[i].k  n == decls[i].n IN
-    IF k \in {"f", "d", "s"} /\ Tab(s)[n].exp
-    THEN IF k = "f" /\ ~permit /\ e[n] # NoDef          \* DevRedefAnyEntry: any visible entry, not only a function
+    IF k \in {"f", "F", "g", "G", "d", "s"} /\ Tab(s)[n].exp
+    THEN IF Kind(k) = "func" /\ ~permit /\ e[n] # NoDef          \* DevRedefAnyEntry: any visible entry, not only a function
          THEN [err |-> "repeated_decl", env |-> e, hist |-> hist]
          ELSE LoadDecls(decls, i + 1, s, v, [e EXCEPT ![n] = MirDef(s, v, Kind(k))],
                         Append(hist, [n |-> n, d |-> MirDef(s, v, Kind(k))]))
@@ -221,7 +246,7 @@ Undefined == {n \in Names : env[n] = NoDef /\ \E i \in 1..Len(toLink) : n \in Im
 BoundSeq(b, insts) ==   \* bindings of the given instances as a flat sequence for emission
   LET keys == {k \in DOMAIN b : Inst(k[1], k[2]) \in SeqRange(insts)}
       sq == SetToSeq(keys)
-  IN [i \in 1..Len(sq) |-> <<sq[i][1], sq[i][2], sq[i][3]>> \o DefT(b[sq[i]])]
+  IN [i \in 1..Len(sq) |-> <<sq[i][1], sq[i][2], sq[i][3]>> \o DefT(b[sq[i]]) \o <<Val(b, b[sq[i]], sq[i][3])>>]
 
 Link(useRes, R) ==
   /\ err = ""
@@ -296,6 +321,10 @@ Shape ==
 
 (* Modules linked earlier keep their bindings (what the code does; not in MIR.md).        *)
 OldBindingsStable == [][\A k \in DOMAIN bound : k \in DOMAIN bound' /\ bound'[k] = bound[k]]_vars
+
+(* What a call through an import yields never changes once the import is bound: neither a later definition of the   *)
+(* name nor of any name the called function calls in turn changes it (the called function keeps ITS bindings).       *)
+CallValuesStable == [][\A k \in DOMAIN bound : Val(bound', bound'[k], k[3]) = Val(bound, bound[k], k[3])]_vars
 
 (* ------------------------------ emission --------------------------------------------- *)
 FinEnv == [i \in 1..Len(SetToSeq(Names)) |-> <<SetToSeq(Names)[i]>> \o DefT(env'[SetToSeq(Names)[i]])]
